@@ -12,6 +12,9 @@ pub struct Case {
     pub ty: Ty,
     pub tagdef: String,
     pub implied: bool,
+    /// further top-level assignments (mutual recursion topologies); `ty` is then named "A"
+    #[serde(default)]
+    pub others: Vec<(String, Ty)>,
 }
 
 pub fn sigma2() -> Vec<Ty> {
@@ -254,18 +257,79 @@ impl Prop for C02 {
             if tier.thorough() || t.depth() <= 1 {
                 for (d, i) in &envs {
                     // quick: full environment product only for small shapes, one rotating environment otherwise
-                    out.push(Case { ty: t.clone(), tagdef: d.to_string(), implied: *i });
+                    out.push(Case { ty: t.clone(), tagdef: d.to_string(), implied: *i, others: vec![] });
                 }
             } else {
                 let (d, i) = envs[k % envs.len()];
-                out.push(Case { ty: t.clone(), tagdef: "AUTOMATIC".into(), implied: false });
-                out.push(Case { ty: t.clone(), tagdef: d.to_string(), implied: i });
+                out.push(Case { ty: t.clone(), tagdef: "AUTOMATIC".into(), implied: false, others: vec![] });
+                out.push(Case { ty: t.clone(), tagdef: d.to_string(), implied: i, others: vec![] });
+            }
+        }
+        // --- mutual recursion between top-level types: every 2-cycle A->B->A over node kinds × edge kinds,
+        //     3-cycles over a reduced edge alphabet
+        let node = |kind: &str, edge: &str, target: &str| -> Ty {
+            let t = Ty::Named(target.to_string());
+            let (ety, opt) = match edge {
+                "req" => (t, Opt::Req),
+                "opt" => (t, Opt::Optional),
+                "anon-seq" => (Ty::Seq(Body::of(vec![Comp { name: "d0".into(), ty: t, opt: Opt::Req }, Comp { name: "d1".into(), ty: Ty::Int, opt: Opt::Req }])), Opt::Req),
+                "anon-set" => (Ty::Set(Body::of(vec![Comp { name: "d0".into(), ty: t, opt: Opt::Req }, Comp { name: "d1".into(), ty: Ty::Int, opt: Opt::Req }])), Opt::Req),
+                "anon-set-opt" => (Ty::Set(Body::of(vec![Comp { name: "d0".into(), ty: t, opt: Opt::Optional }])), Opt::Req),
+                "anon-choice" => (Ty::Choice(Body::of(vec![Comp { name: "d0".into(), ty: t, opt: Opt::Req }, Comp { name: "d1".into(), ty: Ty::Null, opt: Opt::Req }])), Opt::Req),
+                "seqof" => (Ty::SeqOf(Box::new(t)), Opt::Req),
+                _ => (Ty::SetOf(Box::new(t)), Opt::Req),
+            };
+            let comps = vec![Comp { name: "c0".into(), ty: Ty::U8, opt: Opt::Req }, Comp { name: "c1".into(), ty: ety, opt: if kind == "choice" { Opt::Req } else { opt } }, Comp { name: "c2".into(), ty: Ty::Bool, opt: Opt::Req }];
+            match kind {
+                "seq" => Ty::Seq(Body::of(comps)),
+                "set" => Ty::Set(Body::of(comps)),
+                _ => Ty::Choice(Body::of(comps)),
+            }
+        };
+        let finite = |kind: &str, edge: &str| kind == "choice" || matches!(edge, "opt" | "anon-set-opt" | "anon-choice" | "seqof" | "setof");
+        let kinds = ["seq", "set", "choice"];
+        let edges = ["req", "opt", "anon-seq", "anon-set", "anon-set-opt", "anon-choice", "seqof", "setof"];
+        for ka in kinds {
+            for ea in edges {
+                for kb in kinds {
+                    for eb in edges {
+                        if !(finite(ka, ea) || finite(kb, eb)) {
+                            continue;
+                        }
+                        out.push(Case { ty: node(ka, ea, "B"), tagdef: "AUTOMATIC".into(), implied: false, others: vec![("B".into(), node(kb, eb, "A"))] });
+                    }
+                }
+            }
+        }
+        let edges3 = ["req", "opt", "anon-seq", "anon-set", "anon-choice"];
+        for ka in kinds {
+            for ea in edges3 {
+                for kb in kinds {
+                    for eb in edges3 {
+                        for kc in kinds {
+                            for ec in ["opt", "anon-set-opt", "anon-choice"] {
+                                if !tier.thorough() && (ka == "choice" || kb == "choice") && kc == "choice" {
+                                    continue;
+                                }
+                                out.push(Case { ty: node(ka, ea, "B"), tagdef: "AUTOMATIC".into(), implied: false, others: vec![("B".into(), node(kb, eb, "C")), ("C".into(), node(kc, ec, "A"))] });
+                            }
+                        }
+                    }
+                }
             }
         }
         out
     }
     fn check(&self, c: &Case) -> CaseResult {
-        let src = module_text(&c.ty, &c.tagdef, c.implied);
+        let src = if c.others.is_empty() {
+            module_text(&c.ty, &c.tagdef, c.implied)
+        } else {
+            let mut body = format!("A ::= {}\n", ty_text(&c.ty, "A"));
+            for (n, t) in &c.others {
+                body += &format!("{n} ::= {}\n", ty_text(t, n));
+            }
+            module("M", &c.tagdef, c.implied, &body)
+        };
         let o = compile1(&src);
         let gen = match &o {
             Outcome::Ok { generated, warnings } if warnings.is_empty() => generated.clone(),
@@ -285,6 +349,9 @@ impl Prop for C02 {
         let full = format!("{src}\n--- generated ---\n{gen}");
         let mut cmp = Cmp { m, discs: vec![], visited: Default::default(), implied: c.implied, prefix: "shape", src: &full, check_ext: false, check_shape: true };
         cmp.top(&c.ty);
+        for (n, t) in &c.others {
+            cmp.top_named(n, t);
+        }
         if c.ty.uses_ref() {
             cmp.visited.insert("T".into());
         }
